@@ -3,7 +3,7 @@
 (* generating configurations of ClientLib (one cfg per property family).   *)
 EXTENDS ClientLib
 
-A0 == [api |-> "", call |-> "", tl |-> <<>>, short |-> FALSE, stid |-> 0, qos |-> 0, tid |-> 0,
+A0 == [api |-> "", call |-> "", mid |-> 0, tl |-> <<>>, short |-> FALSE, stid |-> 0, qos |-> 0, tid |-> 0,
        dur |-> 0, dsec |-> 0, h |-> "", pl |-> "s:p1"]
 G0 == [t |-> "", qos |-> 0, tit |-> 0, tid |-> 0, mid |-> 0, rc |-> 0, tl |-> <<>>, data |-> "s:m1",
        dup |-> FALSE, midsrc |-> "none"]
@@ -24,9 +24,9 @@ GwReg(tl, tid)    == [G0 EXCEPT !.t = "REGISTER", !.tl = tl, !.tid = tid, !.mids
 (* initial state "connected, a/b registered as 7" reached through the real *)
 (* steps so that emitted schedules start from a fresh client               *)
 Pre == << [e |-> "api", a |-> [Api("Connect") EXCEPT !.call = "c0"]],
-          [e |-> "gw",  p |-> Gw("CONNACK", "none")],
+          [e |-> "gw",  p |-> Gw("CONNACK", "none"), ref |-> ""],
           [e |-> "api", a |-> [ApiT("Register", AB, 0, "") EXCEPT !.call = "c1"]],
-          [e |-> "gw",  p |-> [GwAck("REGACK", "pend", 7) EXCEPT !.mid = 1]] >>
+          [e |-> "gw",  p |-> [GwAck("REGACK", "pend", 7) EXCEPT !.mid = 1], ref |-> "c1"] >>
 
 RECURSIVE Run(_, _)
 Run(st, evs) ==
@@ -51,9 +51,9 @@ InitConnected == /\ s = Run(InitState(Cfg0), PreC)
    proper level-prefix of the filters a/+ and a/b and is matched by a/# (multi-level wildcard
    includes the parent level) *)
 A1 == <<"a">>
-PreS == Pre \o << [e |-> "gw",  p |-> [GwReg(A1, 9) EXCEPT !.mid = 9]],
+PreS == Pre \o << [e |-> "gw",  p |-> [GwReg(A1, 9) EXCEPT !.mid = 9], ref |-> ""],
                   [e |-> "api", a |-> [ApiT("Subscribe", <<"a", "+">>, 0, "h1") EXCEPT !.call = "c2"]],
-                  [e |-> "gw",  p |-> [GwAck("SUBACK", "pend", 0) EXCEPT !.mid = 2]] >>
+                  [e |-> "gw",  p |-> [GwAck("SUBACK", "pend", 0) EXCEPT !.mid = 2], ref |-> "c2"] >>
 InitSubscribed == /\ s = Run(InitState(Cfg0), PreS)
                   /\ obs = Obs0
                   /\ ok = "ok"
@@ -67,7 +67,7 @@ Gw_C27u == {Gw("UNSUBACK", "pend"), GwAck("SUBACK", "pend", 0), GwRc("SUBACK", "
 (* C27q: as above with an inbound QoS 2 exchange open (PUBLISH on a/b received, PUBREC sent): the
    subscriptions change - Subscribe / Unsubscribe with their acknowledgements - before the PUBREL; the
    handlers are those at delivery time, i.e. at PUBREL *)
-PreQ == PreS \o << [e |-> "gw", p |-> [GwPub(2, 0, 7, <<>>, "any") EXCEPT !.mid = 5]] >>
+PreQ == PreS \o << [e |-> "gw", p |-> [GwPub(2, 0, 7, <<>>, "any") EXCEPT !.mid = 5], ref |-> ""] >>
 InitOpenQos2 == /\ s = Run(InitState(Cfg0), PreQ)
                 /\ obs = Obs0
                 /\ ok = "ok"
